@@ -442,6 +442,44 @@ def ch_impostor_clone_closing_x5c(s, r):
         return [regsim.der(leaf), regsim.der(imp)]
     s.k["x5c_override"] = x5c
     s.k["leaf_signer"] = ak
+def ch_proxy_certificate(s, r):
+    # x5c = [a PROXY certificate (RFC 3820: critical proxyCertInfo, subject = issuer's subject + one CN) carrying the attestation key, the ordinary end-entity certificate
+    # (CA = FALSE) that issued it, ...]: an end-entity certificate cannot issue attestation certificates
+    ee_key = regsim.ec_key("proxy_issuer_ee")
+    pci = x509.UnrecognizedExtension(x509.ObjectIdentifier("1.3.6.1.5.5.7.1.14"), bytes.fromhex("300c300a06082b06010505071501"))
+    def x5c(pki, leaf):
+        ee_name = x509.Name([x509.NameAttribute(NameOID.COMMON_NAME, "Device 0001 attestation")])
+        ee = regsim.make_cert(ee_name, pki.issuer_name, ee_key.public_key(), pki.issuer_key, ca=False)
+        proxy_name = x509.Name(list(ee_name) + [x509.NameAttribute(NameOID.COMMON_NAME, r.choice(["1234567", "proxy", "credential"]))])
+        proxy = regsim.make_cert(proxy_name, ee_name, leaf.public_key(), ee_key, ca=None, exts=[(pci, True)] + [(e.value, e.critical) for e in leaf.extensions if not isinstance(e.value, x509.BasicConstraints)])
+        return [regsim.der(proxy), regsim.der(ee)] + [regsim.der(c) for c in reversed(pki.inters)]
+    s.k["x5c_override"] = x5c
+def ch_path_length_exceeded(s, r):
+    # root -> CA-A (pathLenConstraint 0) -> CA-B -> leaf: CA-A may not have a CA below it
+    s.n_inter = 2
+    s.k["pki_kw"] = dict(s.k.get("pki_kw", {}), inter_pathlen0=True)
+def ch_path_length_exceeded_and(other):
+    def f(s, r):
+        other(s, r)
+        s.n_inter = 2
+        s.k["pki_kw"] = dict(s.k.get("pki_kw", {}), inter_pathlen0=True)
+    return f
+def ch_expired_root_redated_copy(s, r):
+    # the RP's root is outside its validity period; x5c ends with a certificate that has the root's subject AND public key but other dates (anybody can write such a certificate -
+    # a trust anchor's self-signature is never checked): the response does not get to re-date the RP's anchor
+    s.k["pki_kw"] = dict(root_nb=T0 - 4000 * DAY, root_na=T0 - 10) if r.random() < 0.5 else dict(root_nb=T0 + 10, root_na=T0 + 4000 * DAY)
+    ak = regsim.ec_key("attacker_ca")
+    def x5c(pki, leaf):
+        copy_ = regsim.make_cert(pki.root_name, pki.root_name, pki.root_key.public_key(), ak, ca=True, nb=T0 - 10 * DAY, na=T0 + 3000 * DAY, serial=r.choice([4242, 4243]))
+        return pki.chain_der(leaf) + [regsim.der(copy_)]
+    s.k["x5c_override"] = x5c
+def ch_aki_issuer_serial_only(fault):
+    def f(s, r):
+        fault(s, r)
+        # the certificate at the top of x5c names its issuer by issuer-and-serial only (an AuthorityKeyIdentifier without a key identifier - RFC 5280 allows it)
+        s.n_inter = 0
+        s.k["leaf_aki_issuer_serial"] = True
+    return f
 def ch_surrogate_self_signed(s, r):
     # "surrogate basic attestation": x5c = one self-signed certificate over the CREDENTIAL key, statement signed with the credential key.
     # With anchors in force it chains to none of them.
@@ -466,14 +504,20 @@ CHAIN_FAULTS = {
     "not-yet-valid-root": ch_future_root, "corrupted-signature": ch_bad_signature, "missing-intermediate": ch_missing_inter,
     "non-ca-intermediate": ch_non_ca_inter,
     "attacker-ca-first-genuine-chain-as-intermediates": ch_attacker_ca_first,
-    "impostor-root-clone-closing-x5c": ch_impostor_clone_closing_x5c, "expired-leaf:valid-since-the-epoch": ch_expired_leaf_since_epoch, "not-yet-valid-leaf:valid-until-9999": ch_future_leaf_forever,
+    "impostor-root-clone-closing-x5c": ch_impostor_clone_closing_x5c, "proxy-certificate-issued-by-an-end-entity-certificate": ch_proxy_certificate, "path-length-exceeded": ch_path_length_exceeded,
+    "path-length-exceeded:expired-leaf": ch_path_length_exceeded_and(ch_expired_leaf), "path-length-exceeded:not-yet-valid-leaf": ch_path_length_exceeded_and(ch_future_leaf),
+    "expired-root:redated-copy-of-the-root-closing-x5c": ch_expired_root_redated_copy,
+    "impostor-root-same-name:aki-with-issuer-and-serial-only": ch_aki_issuer_serial_only(ch_impostor_root), "expired-leaf:aki-with-issuer-and-serial-only": ch_aki_issuer_serial_only(ch_expired_leaf), "expired-leaf:valid-since-the-epoch": ch_expired_leaf_since_epoch, "not-yet-valid-leaf:valid-until-9999": ch_future_leaf_forever,
     "expired-intermediate:leaf-valid-until-9999": ch_expired_inter_leaf_forever, "expired-root:leaf-valid-until-9999": ch_expired_root_leaf_forever, "self-signed-certificate-over-the-credential-key": ch_surrogate_self_signed, "pinned-leaf-expired": ch_pinned_leaf_expired, "pinned-leaf-not-yet-valid": ch_pinned_leaf_future,
 }
 # the same faults with unrecognised (non-critical) extensions on the leaf - see _extension_decor
 for _n in ("expired-leaf", "not-yet-valid-leaf", "expired-intermediate", "expired-root", "impostor-root-same-name", "missing-intermediate"):
     CHAIN_FAULTS[_n + ":leaf-with-unrecognised-extensions"] = _decorated(CHAIN_FAULTS[_n])
 # chain faults whose no-anchor (pass-through) variant is not simply "accepted"
-NO_PASSTHROUGH_VARIANT = {"impostor-root-same-name", "impostor-root-clone-closing-x5c", "impostor-root-same-name:leaf-with-unrecognised-extensions", "attacker-ca-first-genuine-chain-as-intermediates", "self-signed-certificate-over-the-credential-key"}
+# chain faults whose x5c necessarily holds more than one certificate (fido-u2f statements hold exactly one)
+MULTI_CERT_FAULTS = {"proxy-certificate-issued-by-an-end-entity-certificate", "path-length-exceeded", "path-length-exceeded:expired-leaf", "path-length-exceeded:not-yet-valid-leaf",
+                     "expired-root:redated-copy-of-the-root-closing-x5c", "impostor-root-clone-closing-x5c"}
+NO_PASSTHROUGH_VARIANT = {"impostor-root-same-name", "proxy-certificate-issued-by-an-end-entity-certificate", "impostor-root-clone-closing-x5c", "impostor-root-same-name:aki-with-issuer-and-serial-only", "impostor-root-same-name:leaf-with-unrecognised-extensions", "attacker-ca-first-genuine-chain-as-intermediates", "self-signed-certificate-over-the-credential-key"}
 
 
 def applicable_kinds(fmt):
